@@ -511,7 +511,7 @@ func c14Validate(p *chk.Prog, r *chk.Report, pkg string) {
 				a := rangeVal(f, rs)
 				app := f.IsAssignPat("L", "append(L, A)", chk.H("L", f.IsObj(f.ObjOf(id))), chk.H("A", a))
 				apps := g.Find(app)
-				if len(apps) == 1 && g.Dominated(apps[0], g.GErrNil(true, "validate(A)", chk.H("A", a))) && !loopSkipsWithout(g, rs, app, nil) && g.AfterLoop(s, rs) {
+				if len(apps) == 1 && g.Dominated(apps[0], g.GErrNil(true, "validate(A)", chk.H("A", a))) && !loopSkipsWithout(g, rs, app, chk.NoGuard) && g.AfterLoop(s, rs) {
 					newList = f.ObjOf(id)
 					okStore = true
 				}
